@@ -13,6 +13,18 @@ namespace Gonnx.C02
 open Gonnx Gonnx.Proofs.Effects
 variable {V : Type}
 
+-- concrete instance shared by the non-vacuity examples below: two nodes (the second returns its first
+-- input as `y` — an aliased result — and a fresh `z`), a write-free semantics, a store of three objects
+private def nv_sem : Nat → List (Option Nat) → Res (OpEff Nat) := fun i vals =>
+  let s := (vals.map (·.getD 0)).foldl (· + ·) 0
+  if i = 0 then .ok { outs := [.fresh s], writes := [] } else .ok { outs := [.alias 0, .fresh (s + 1)], writes := [] }
+private theorem nv_pure : HeaderPure nv_sem := by
+  intro i vals eff h
+  unfold nv_sem at h
+  split at h <;> (cases h; rfl)
+private def nv_nodes : List GNode := [⟨["x", "w"], ["a"]⟩, ⟨["a", "x"], ["y", "z"]⟩]
+private def nv_σ : Store Nat := ⟨[5, 7, 9]⟩
+
 /-- **Frame.** If no operator writes to its inputs, a Run — successful or failed — leaves every
 object that existed before it exactly as it was: the caller's tensors can be passed again, the
 weights are untouched. -/
@@ -21,6 +33,10 @@ theorem frame (sem : Nat → List (Option V) → Res (OpEff V)) (hp : HeaderPure
     (id : ObjId) (hid : id < σ.objs.length) :
     (runS sem nodes outputs σ params ins).1.get id = σ.get id :=
   runS_frame sem hp nodes outputs σ params ins id hid
+
+-- non-vacuity: `HeaderPure nv_sem` holds, object 1 (the caller's `x`) exists
+example : (runS nv_sem nv_nodes ["z", "y"] nv_σ [("w", 0)] [("x", 1)]).1.get 1 = nv_σ.get 1 :=
+  frame nv_sem nv_pure nv_nodes ["z", "y"] nv_σ [("w", 0)] [("x", 1)] 1 (by decide)
 
 /-- the store only grows -/
 theorem store_grows (sem : Nat → List (Option V) → Res (OpEff V))
@@ -38,6 +54,13 @@ theorem run_on_values (sem : Nat → List (Option V) → Res (OpEff V)) (hp : He
     r.2.map (valuesOf r.1) = runV sem nodes outputs (valuesOf σ params) (valuesOf σ ins) :=
   runS_values sem hp nodes outputs σ params ins hvp hvi
 
+-- non-vacuity: the two-node Run on valid ids; it succeeds with `z = 20`, `y = 12`
+example :
+    let r := runS nv_sem nv_nodes ["z", "y"] nv_σ [("w", 0)] [("x", 1)]
+    r.2.map (valuesOf r.1) = runV nv_sem nv_nodes ["z", "y"] (valuesOf nv_σ [("w", 0)]) (valuesOf nv_σ [("x", 1)]) :=
+  run_on_values nv_sem nv_pure nv_nodes ["z", "y"] nv_σ [("w", 0)] [("x", 1)] (by unfold Valid; decide) (by unfold Valid; decide)
+example : runV nv_sem nv_nodes ["z", "y"] (valuesOf nv_σ [("w", 0)]) (valuesOf nv_σ [("x", 1)]) = .ok [("z", 20), ("y", 12)] := by decide
+
 /-- **History independence.** After any sequence of earlier Runs on the same Model (same or different
 inputs, re-used input objects, outputs of one Run fed to the next, Runs that failed), the parameters
 still have their initial values, and therefore call `k` returns what the functional Run returns on
@@ -52,6 +75,16 @@ theorem history_independent (sem : Nat → List (Option V) → Res (OpEff V)) (h
     (let r := runS sem nodes outputs σk params calls[k]
      r.2.map (valuesOf r.1) = runV sem nodes outputs (valuesOf σ0 params) (valuesOf σk calls[k])) :=
   history sem hp nodes outputs σ0 params calls hvp k calls[k] hvk
+
+-- non-vacuity: a history of two calls; the second is fed object 4, the `z` the first one returned
+example :
+    let σk := storeBefore nv_sem nv_nodes ["z", "y"] [("w", 0)] nv_σ [[("x", 1)], [("x", 4)]] 1
+    valuesOf σk [("w", 0)] = valuesOf nv_σ [("w", 0)] ∧
+    (let r := runS nv_sem nv_nodes ["z", "y"] σk [("w", 0)] [("x", 4)]
+     r.2.map (valuesOf r.1) = runV nv_sem nv_nodes ["z", "y"] (valuesOf nv_σ [("w", 0)]) (valuesOf σk [("x", 4)])) :=
+  history_independent nv_sem nv_pure nv_nodes ["z", "y"] nv_σ [("w", 0)] [[("x", 1)], [("x", 4)]]
+    (by unfold Valid; decide) 1 (by decide) (by unfold Valid; decide)
+example : (storeBefore nv_sem nv_nodes ["z", "y"] [("w", 0)] nv_σ [[("x", 1)], [("x", 4)]] 1).objs = [5, 7, 9, 12, 20] := by decide
 
 /-- what goes wrong without the premise: an operator that reshapes its input in place (Conv's bias
 before the fix) makes the second Run see another parameter value -/
